@@ -7,6 +7,8 @@ import (
 	"fmt"
 	"go/ast"
 	"go/parser"
+	"go/token"
+	"strconv"
 	"os"
 		"regexp"
 		"strings"
@@ -478,6 +480,14 @@ func parseDesignators(s string) ([]ast.Expr, error) {
 	s = strings.TrimSpace(s)
 	if s == "nothing" || s == "" {
 		return nil, nil
+	}
+	if strings.HasPrefix(s, "everything except ") {
+		// everything except <key-prefix>, <key-prefix> ...   (heap key prefixes such as f:engine. or ghost:written)
+		var args []ast.Expr
+		for _, p := range strings.Split(strings.TrimPrefix(s, "everything except "), ",") {
+			args = append(args, &ast.BasicLit{Kind: token.STRING, Value: strconv.Quote(strings.TrimSpace(p))})
+		}
+		return []ast.Expr{&ast.CallExpr{Fun: &ast.Ident{Name: "everythingExcept"}, Args: args}}, nil
 	}
 	var out []ast.Expr
 	for _, part := range splitTop(s, ',') {
